@@ -1176,6 +1176,45 @@ func ruleBrokerListeners(c *Ctx) {
 		return
 	}
 	c.R.Hold("R-RES/brokerls", p.Pos(mkNode.Ast), acc.Name, "every brokered listener is recorded in the broker", "stored in "+p.FieldName(regField)+" on every successful path", true)
+	// (a') a record stays until its own listener is closed: a map entry keyed
+	// by a value the caller of Accept chooses (the service ID) is replaced by a
+	// second Accept with the same value, and removing "the" entry of one
+	// listener removes the other's
+	if sig, ok := acc.Obj.Type().(*types.Signature); ok {
+		params := map[types.Object]bool{}
+		for i := 0; i < sig.Params().Len(); i++ {
+			params[sig.Params().At(i)] = true
+		}
+		var keyed ast.Node
+		guarded := false
+		for _, m := range g.Nodes {
+			as, ok := m.Ast.(*ast.AssignStmt)
+			if !ok {
+				continue
+			}
+			for i, l := range as.Lhs {
+				ix, ok := ast.Unparen(l).(*ast.IndexExpr)
+				if !ok || SelField(info, ix.X) != regField || i >= len(as.Rhs) || identObj(info, as.Rhs[i]) != lnVar {
+					continue
+				}
+				if o := identObj(info, ast.Unparen(ix.Index)); o != nil && params[o] {
+					keyed = as
+				}
+			}
+			// a comma-ok lookup of the registry before the store: the duplicate is seen
+			if len(as.Lhs) == 2 && len(as.Rhs) == 1 {
+				if ix, ok := ast.Unparen(as.Rhs[0]).(*ast.IndexExpr); ok && SelField(info, ix.X) == regField {
+					guarded = true
+				}
+			}
+		}
+		if keyed != nil && !guarded {
+			c.R.Violate("R-RES/brokerls", p.Pos(keyed), acc.Name, "a record stays until its listener is closed",
+				"the listener is recorded under a key the caller of Accept chooses: a second Accept with the same value replaces the record of a listener that is still open (and removing one listener's record removes the other's), so GRPCBroker.Close does not close it and its socket file stays behind", nil)
+		} else {
+			c.R.Hold("R-RES/brokerls", p.Pos(mkNode.Ast), acc.Name, "a record stays until its listener is closed", "the record is not keyed by a parameter of Accept (or the store follows a lookup of the same key)", true)
+		}
+	}
 	// (b)
 	cinfo := cl.Pkg.TypesInfo
 	var fromField func(f *Func, e ast.Expr, depth int) bool
